@@ -58,6 +58,9 @@ C08_KINDS = ["int", "float", "bool", "none", "str", "path", "list", "tuple", "di
              "obj", "numseq", "npscalar", "module"]
 
 
+RULE = RULE + " Rounds 14-15: sticky faults (after the armed ENOSPC/EIO fired, every later write-type store operation / zip member / zip close of the same save fails too; deletes keep working); targets spelled '~/name' with a scratch $HOME inside the sandbox that holds a complete decoy object."
+
+
 def setup():
     serio.setup()
 
